@@ -4,8 +4,10 @@ import (
 	"context"
 	"errors"
 	"fmt"
+	"io"
 	"math"
 	"math/big"
+	"os"
 	"reflect"
 	"strconv"
 	"strings"
@@ -31,6 +33,35 @@ type CallCase struct {
 // ErrCase: f(g(1), h(2)) with a subset of the three sites returning an error.
 type ErrCase struct {
 	FailF, FailG, FailH bool
+	Err                 int // which error value the failing site returns (index into c11ErrValues)
+}
+
+type c11CustomErr struct{ inner error }
+
+func (e *c11CustomErr) Error() string { return "custom failure" }
+func (e *c11CustomErr) Unwrap() error { return e.inner }
+
+type c11AnyErr struct{}
+
+func (c11AnyErr) Error() string        { return "matches everything" }
+func (c11AnyErr) Is(target error) bool { return true }
+
+// error values a host function may return: plain, the sentinels of the standard library that callers
+// commonly test for (bare and wrapped), custom types, an empty text
+var c11ErrValues = []error{
+	errors.New("deliberate failure"),
+	context.Canceled,
+	context.DeadlineExceeded,
+	fmt.Errorf("query: %w", context.Canceled),
+	fmt.Errorf("query: %w", context.DeadlineExceeded),
+	io.EOF,
+	io.ErrUnexpectedEOF,
+	os.ErrNotExist,
+	fmt.Errorf("open: %w", os.ErrNotExist),
+	&c11CustomErr{},
+	&c11CustomErr{inner: context.DeadlineExceeded},
+	c11AnyErr{},
+	errors.New(""),
 }
 
 var c11Call *eng.Kind[CallCase]
@@ -811,7 +842,7 @@ func judgeErrSites(c ErrCase) *eng.Fail {
 		return func(xs ...interface{}) (interface{}, error) {
 			log = append(log, name)
 			if fail {
-				return nil, errors.New("deliberate failure")
+				return nil, c11ErrValues[c.Err]
 			}
 			return float64(len(xs)), nil
 		}
@@ -1110,11 +1141,14 @@ func runC11(w *eng.W) {
 		})
 	}
 	w.NoteMax("max:signatures", int64(sigIdx))
-	for i := 0; i < 8; i++ {
+	for i := 0; i < 8*len(c11ErrValues); i++ {
+		if i >= 8 && i%8 == 0 {
+			continue // nothing fails: the error value does not matter
+		}
 		if !w.Take() {
 			continue
 		}
-		c := ErrCase{FailF: i&1 != 0, FailG: i&2 != 0, FailH: i&4 != 0}
+		c := ErrCase{FailF: i&1 != 0, FailG: i&2 != 0, FailH: i&4 != 0, Err: i / 8}
 		w.State(1)
 		w.Trans(3)
 		w.Trace(1)
